@@ -184,13 +184,17 @@ def finish(ctx, explanation, write_evidence=True):
     replay_paths = []
     if unknown:
         rc = 1
+        # development runs against scratch trees (PYX_NO_EVIDENCE) keep their replay files out of /verif/evidence
+        write_replay = not os.environ.get('PYX_NO_EVIDENCE') or bool(os.environ.get('PYX_EVIDENCE_DIR'))
         rdir = os.path.join(evidence_dir(), 'replay')
-        os.makedirs(rdir, exist_ok=True)
+        if write_replay:
+            os.makedirs(rdir, exist_ok=True)
         for i, f in enumerate(unknown):
             print('%s %s %s -- %s' % (f.where, f.construct, f.rule, f.message))
             path = os.path.join(rdir, '%s-%s-%d.json' % (ctx.prop, f.rule, i))
-            with open(path, 'w') as fh:
-                json.dump(f.as_dict(), fh, indent=1)
+            if write_replay:
+                with open(path, 'w') as fh:
+                    json.dump(f.as_dict(), fh, indent=1)
             replay_paths.append(path)
             print('VIOLATION property=%s replay=%s' % (ctx.prop, path))
     for e in ctx.analysis_errors:
